@@ -54,6 +54,18 @@ CHECKS.update({
         technique='CrossHair/z3 symbolic execution of one set operation from an arbitrary valid pre-state + z3 QF_BV queries over the category/block tables',
         design='DESIGN.md §4 C13'),
 })
+CHECKS['C12'] = dict(
+    category='translation_validation', engine='E3-regex',
+    text='Translation validation of the real translate_pattern: for every pattern of an enumerated XSD-grammar family (quick ~1000, '
+         'thorough ~1400 patterns x XSD 1.0 / 1.1+dot-all / XPath anchored mode) the emitted Python regex is parsed with CPython\'s '
+         're._parser and compared, as a z3 regular expression over a minterm alphabet, with the language built by an independent '
+         'W3C-grammar reference parser: unsat = same language for every subject string of any length. Witnesses are replayed with '
+         're on the real pattern. fn:matches on symbolic subjects (len <= 3) by CrossHair; invalid patterns give FORX0002.',
+    note='Trusted: z3 sequence/regex theory, CPython sre parser, verif_lib/rx.py reference (XML Schema Part 2 app. F; classes from '
+         'unicodedata). Known findings (excluded classes, each with its own witness): \\s/\\S and \\w/\\W outside classes, two negative '
+         'escapes in one class. Out: back-references, i/m/x flags, \\i \\c on astral code points, match positions.',
+    technique='translation validation: z3 regex-language equivalence (minterm alphabet) of translate_pattern output vs reference grammar',
+    design='DESIGN.md §4 C12')
 NOT_APPLICABLE = {
     'C04': 'Quantifies over program syntax and hash seeds: no value domain to make symbolic; symbolic source text does not get through '
            'the tokenizer regex under CrossHair (600 CPU-s, len<=2, no verdict); a table-level z3 check would verify a model of the '
